@@ -5,7 +5,7 @@ varied individually), added across the same and different cells, under header ve
 and above 1.1, interleaved with dump / restart; stored documents get a colliding pair injected.
 """
 from .. import gen_im, pools
-from ..pools import pick
+from ..pools import pick, hexstr
 
 ID = "C09"
 LEVEL = "exploration"
@@ -40,15 +40,52 @@ def legacy_then_add(rng):
     return {"machine": "M-IM", "cfg": {"simset": pick(rng, ["insertion", "shuffle"])}, "ops": ops}
 
 
+def inplace_identity_change(rng):
+    """An image already filed gets one more additional variant IN PLACE (no attribute assignment): its identity is now that
+    of another pool image, whose add (other checksums) must be refused - and vice versa for an identity that has moved away."""
+    base = gen_im.gen_image(rng, 0, arch=pick(rng, pools.ARCHES[:3]), small_identity=True)
+    base["unified"] = True
+    base["additional_variants"] = [pick(rng, ["Server", "Client"])]
+    extra = pick(rng, ["Workstation", "Cloud"])
+    longer = dict(base, additional_variants=base["additional_variants"] + [extra], path="p/longer.iso",
+                  checksums=dict((k, hexstr(rng, len(v))) for k, v in base["checksums"].items()))
+    same = dict(base, additional_variants=list(base["additional_variants"]), path="p/same.iso",
+                checksums=dict((k, hexstr(rng, len(v))) for k, v in base["checksums"].items()))
+    ops = [{"op": "im_init", "compose": pools.compose(rng, {"short": "F", "version": "20"}), "version": pick(rng, [None, "1.2", "1.1", "2.0"])},
+           {"op": "img_new", "iid": 0, "attrs": base}, {"op": "img_new", "iid": 1, "attrs": longer}, {"op": "img_new", "iid": 2, "attrs": same}]
+    v, a = pick(rng, ["Server", "Client"]), pick(rng, pools.ARCHES[:3])
+    ops.append({"op": "img_add", "variant": v, "arch": a, "iid": 0})
+    if rng.random() < 0.5:
+        ops.append({"op": "img_add", "variant": pick(rng, ["Server", "Client"]), "arch": a, "iid": 2})     # refused: collides now
+    ops.append({"op": "img_inplace", "iid": 0, "how": "additional_variants.append", "value": extra})
+    order = [1, 2]
+    rng.shuffle(order)
+    for i in order:
+        ops.append({"op": "img_add", "variant": pick(rng, ["Server", "Client"]), "arch": pick(rng, pools.ARCHES[:3]), "iid": i})
+    path = "/sim/d/images.json"
+    ops.append({"op": "dump", "path": path})
+    ops.append({"op": "restart", "path": path, "via": "path"})
+    return {"machine": "M-IM", "cfg": {"simset": pick(rng, ["insertion", "shuffle"])}, "ops": ops}
+
+
 def generate(rng, tier, idx):
     if idx % 10 == 9:
         return legacy_then_add(rng)
+    if idx % 20 == 8:
+        return inplace_identity_change(rng)
     imgs = gen_im.gen_c09_pool(rng, n_ident=rng.randint(2, 6))
     rel = {"short": "F", "version": "20"}
     version = pick(rng, [None, None, "1.2", "1.2", "1.1", "1.0", "0.3", "2.0", "1.10", "10.0", "0.11"])
     ops = [{"op": "im_init", "compose": pools.compose(rng, rel), "version": version}]
+    foreign_parent = rng.random() < 0.15
+    if foreign_parent:
+        # the image objects were created for ANOTHER manifest (an older-format one, or none at all) and are filed here
+        ops.append({"op": "im_init", "slot": 5, "compose": pools.compose(rng, rel), "version": pick(rng, ["1.0", "1.0", "0.3", "1.2", None])})
     for i, img in enumerate(imgs):
-        ops.append({"op": "img_new", "iid": i, "attrs": img})
+        o = {"op": "img_new", "iid": i, "attrs": img}
+        if foreign_parent and rng.random() < 0.7:
+            o["parent_slot"] = pick(rng, [5, 5, None])
+        ops.append(o)
     path = "/sim/d/images.json"
     variants = ["Server", "Client"]
     n = rng.randint(3, 14 if tier == "quick" else 30)
